@@ -7,10 +7,11 @@ Line protocol of the C37 driver (one op per line, see harness/crypto/merklearray
   sha  <alg> <hex>                                    → digest hex
   pair <d> <l> <r>                                    → `pair.ToBeHashed` bytes | panic
   pv   <alg> <vc> <arr> <idxs>                        → root=… depth=… path=… verify=… | build=… | prove=…
-  vf   <alg> <vc> <arr> <root|=> <depth> <path> <elems> <mut…>  → <result> honest=<0|1>
+  vf   <alg[/palg]> <vc> <arr> <root|=> <depth> <path> <elems> <mut…>  → <result> honest=<0|1>
+       (palg = hash type of the PROOF when it differs from the tree's; ≥ 4 = invalid factory)
 
 alg: 0 sha512_256, 2 sha256, 3 sha512.  Lists are comma separated, `-` is the empty list, `_` the
-empty byte string; elems are `pos:hex`.  Driver args: `lenl|fixed` `nodepth|depth` (facts of the tree).
+empty byte string; elems are `pos:hex`.  Driver args: `lenl|fixed` `nodepth|depth` `nohashcheck|hashcheck` (facts of the tree).
 -/
 namespace AlgoVerif.Driver.C37
 open AlgoVerif.Drv Model.MerkleArray
@@ -53,17 +54,28 @@ def elemList (s : String) : Option (List (Nat × Bytes)) :=
 
 def showList (l : List Bytes) : String := if l.isEmpty then "-" else ",".intercalate (l.map hexOf)
 
-def hashOf (alg : String) : Option ((Bytes → Bytes) × Nat) :=
+/-- hash, digest size, `HashFactory.Validate() == nil`.  Types ≥ 4 (MaxHashType) are invalid:
+`NewHash()` is `invalidHash` (Size 0, Sum = nil).  Type 1 (sumhash) is not implemented here. -/
+def hashOf (alg : String) : Option ((Bytes → Bytes) × Nat × Bool) :=
   match alg with
-  | "0" => some (AlgoVerif.Sha.sha512_256, 32)
-  | "2" => some (AlgoVerif.Sha.sha256, 32)
-  | "3" => some (AlgoVerif.Sha.sha512, 64)
-  | _ => none
+  | "0" => some (AlgoVerif.Sha.sha512_256, 32, true)
+  | "2" => some (AlgoVerif.Sha.sha256, 32, true)
+  | "3" => some (AlgoVerif.Sha.sha512, 64, true)
+  | "1" => none
+  | s => match s.toNat? with
+    | some n => if 4 ≤ n then some (fun _ => [], 0, false) else none
+    | none => none
+
+/-- `A` or `A/P`: hash type of the tree and of the proof presented to Verify -/
+def algPair (tok : String) : String × String :=
+  match tok.splitOn "/" with
+  | [a, p] => (a, p)
+  | _ => (tok, tok)
 
 def showV : VRes → String
   | .ok => "ok" | .rootMismatch => "rootMismatch" | .posOutOfBound => "posOutOfBound"
   | .nonEmptyProof => "nonEmptyProof" | .noHints => "noHints" | .unexpectedDepth => "unexpectedDepth"
-  | .panic => "panic" | .fuel => "MODEL-FUEL"
+  | .invalidHash => "invalidHash" | .panic => "panic" | .fuel => "MODEL-FUEL"
 def showP : PErr → String
   | .zeroCommitment => "zeroCommitment" | .posOutOfBound => "posOutOfBound" | .internal => "internal"
 def showB : BErr → String
@@ -73,23 +85,23 @@ def dedup : List Nat → List Nat
   | [] => []
   | x :: xs => x :: (dedup xs).filter (· ≠ x)
 
-def handle (fixedOff checkDepth : Bool) (line : String) : String :=
+def handle (fixedOff checkDepth checkHash : Bool) (line : String) : String :=
   match fields line with
   | ["sha", alg, h] =>
     match hashOf alg, unhex h with
-    | some (H, _), some b => hexOf (H b)
+    | some (H, _, _), some b => hexOf (H b)
     | _, _ => "bad-op"
   | ["pair", d, l, r] =>
     match unhex l, unhex r with
     | some lb, some rb =>
-      match pairBytes ⟨id, nat! d, fixedOff, checkDepth⟩ lb rb with
+      match pairBytes ⟨id, nat! d, fixedOff, checkDepth, true, checkHash⟩ lb rb with
       | some b => hexOf b
       | none => "panic"
     | _, _ => "bad-op"
   | ["pv", alg, vc, arr, idxs] =>
     match hashOf alg, bytesList arr, natList idxs with
-    | some (H, d), some a, some ix =>
-      let c : Cfg := ⟨H, d, fixedOff, checkDepth⟩
+    | some (H, d, v), some a, some ix =>
+      let c : Cfg := ⟨H, d, fixedOff, checkDepth, v, checkHash⟩
       match (if vc = "1" then buildVC c a else build c a) with
       | .error e => "build=" ++ showB e
       | .ok t =>
@@ -104,10 +116,11 @@ def handle (fixedOff checkDepth : Bool) (line : String) : String :=
             s!"root={hexOf root} depth={pf.depth} path={showList pf.path} verify={showV r}"
     | _, _, _ => "bad-op"
   | "vf" :: alg :: vc :: arr :: root :: depth :: path :: elems :: _ =>
-    match hashOf alg, bytesList arr, bytesList path, elemList elems with
-    | some (H, d), some a, some p, some el =>
-      let c : Cfg := ⟨H, d, fixedOff, checkDepth⟩
-      match (if vc = "1" then buildVC c a else build c a) with
+    match hashOf (algPair alg).1, hashOf (algPair alg).2, bytesList arr, bytesList path, elemList elems with
+    | some (HT, dT, vT), some (H, d, v), some a, some p, some el =>
+      let cT : Cfg := ⟨HT, dT, fixedOff, checkDepth, vT, checkHash⟩
+      let c : Cfg := ⟨H, d, fixedOff, checkDepth, v, checkHash⟩
+      match (if vc = "1" then buildVC cT a else build cT a) with
       | .error e => "build=" ++ showB e
       | .ok t =>
         match t.root with
@@ -119,7 +132,7 @@ def handle (fixedOff checkDepth : Bool) (line : String) : String :=
             let pf : Proof := ⟨p, nat! depth⟩
             let r := if vc = "1" then verifyVC c rt el pf else verify c rt el pf
             s!"{showV r} honest={if rt = hroot then 1 else 0}"
-    | _, _, _, _ => "bad-op"
+    | _, _, _, _, _ => "bad-op"
   | _ => "bad-op"
 
 end AlgoVerif.Driver.C37
